@@ -16,7 +16,13 @@ from .writer import cfg_text
 
 env.import_pyjelly()
 
+RDF_STAR = {"triples-star-s", "triples-star-o"}        # universes only the generic adapters can decode
+
 UNIVERSES = {
+    "triples-star-s": dict(PType=1, MaxN=8, MaxP=0, MaxD=0, Ver=1, IdsN="Ids1", IdsP="NoIds", IdsD="NoIds", StrN="SNx", StrP="NoStr", StrD="NoStr",
+                           Bnodes="BN1", Lexes="LX1", Langs="NoLangs", NsNames="NoStr", AllowGen=False, AllowStar=True, KindsOverride="StarKindsS"),
+    "triples-star-o": dict(PType=1, MaxN=8, MaxP=0, MaxD=0, Ver=1, IdsN="Ids1", IdsP="NoIds", IdsD="NoIds", StrN="SNx", StrP="NoStr", StrD="NoStr",
+                           Bnodes="BN1", Lexes="LX1", Langs="NoLangs", NsNames="NoStr", AllowGen=False, AllowStar=True, KindsOverride="StarKindsO"),
     # name: constants.  Ids contiguous from 1 so that the projection prints as arrays.
     "triples-names": dict(PType=1, MaxN=8, MaxP=0, MaxD=0, Ver=1, IdsN="Ids2", IdsP="NoIds", IdsD="NoIds", StrN="SN2", StrP="NoStr", StrD="NoStr",
                           Bnodes="BN1", Lexes="NoStr", Langs="NoLangs", NsNames="NoStr", AllowGen=False, AllowStar=False, KindsOverride="TinyKinds"),
@@ -31,7 +37,7 @@ def explore(name: str, faults="BodyFaults", timeout=900):
     c = producer.consts(**UNIVERSES[name], Faults=faults, FaultAt=0, Exhaustive=True, HistLen=0)
     r = tlc.run("MCProducer", cfg_text(c, ("Legal", "PrintFaults")), workers=1, timeout=timeout, heap="6g")
     if r.violated or not r.ok:
-        env.machinery_failure(f"reader graph {name}: {r.violated or r.errors[:2]}\n" + "\n".join(r.out.splitlines()[-10:]))
+        env.machinery_failure(f"reader graph {name}: {r.violated or r.errors[:2]}\n" + "\n".join(l[:300] for l in r.out.splitlines()[-10:]))
     edges: dict = {}
     faults_at: dict = {}
     for p in r.printed("TR"):
